@@ -2,6 +2,7 @@ package props
 
 import (
 	"bytes"
+	"crypto/sha256"
 	"errors"
 	"fmt"
 	"sort"
@@ -168,10 +169,14 @@ func runEquivocation(c *fw.Ctx, blameOnly bool) {
 				if t == from || !m.IsFor(t.ID) {
 					continue
 				}
-				if from == A && g2[t.ID] && !(resend && m.Broadcast && int(m.RoundNumber) == k) {
+				// before the fork the two instances say the same thing, but not necessarily in the same
+				// BYTES (each encodes Go maps in its own random iteration order): up to round k-1 everybody
+				// hears instance A, the twin only listens
+				pre := int(m.RoundNumber) < k
+				if from == A && g2[t.ID] && !pre && !(resend && m.Broadcast && int(m.RoundNumber) == k) {
 					continue
 				}
-				if from == A2 && !g2[t.ID] {
+				if from == A2 && (!g2[t.ID] || pre) {
 					continue
 				}
 				out = append(out, t)
@@ -192,7 +197,7 @@ func runEquivocation(c *fw.Ctx, blameOnly bool) {
 			if m.Broadcast && int(m.RoundNumber) == k {
 				if from == A {
 					sentA[mkey(m)] = m.Data
-				} else if d, ok := sentA[mkey(m)]; ok && !bytes.Equal(d, m.Data) {
+				} else if d, ok := sentA[mkey(m)]; ok && msgKeyData(d) != msgKeyData(m.Data) {
 					applied = true
 				}
 				if resend && from == A2 && !firstSeen[to.ID] {
@@ -214,16 +219,34 @@ func runEquivocation(c *fw.Ctx, blameOnly bool) {
 					}
 				}
 			}
+		}
+		{
 			ex.Net.BeforeDeliver = func(e *sim.Env, to *sim.Node) bool {
-				// the twin quotes the view hash that belongs to the first version
-				if e.From == cheater && g2[to.ID] && e.Round > k {
-					if bv, ok := bvA[e.Round]; ok {
-						if m, err := e.DecodeE(); err == nil && m.BroadcastVerification != nil && !bytes.Equal(m.BroadcastVerification, bv) {
-							m.BroadcastVerification = bv
-							if b, err := m.MarshalBinary(); err == nil {
-								e.Bytes = b
-								c.Probe("resend_viewhash_of_first_version_quoted", 1)
-							}
+				// the twin's own view hash of round k-1 covers ITS encoding of its round k-1 broadcast, the
+				// group heard A's: in round k it quotes A's (identical content). In resend mode it goes on
+				// quoting the view hash that belongs to the first version.
+				if e.From == cheater && g2[to.ID] && (e.Round == k || resend && e.Round > k) {
+					m, err := e.DecodeE()
+					if err != nil {
+						return true
+					}
+					changed := false
+					if bv, ok := bvA[e.Round]; ok && m.BroadcastVerification != nil && !bytes.Equal(m.BroadcastVerification, bv) {
+						m.BroadcastVerification = bv
+						changed = true
+						c.Probe("viewhash_of_instance_A_quoted", 1)
+					}
+					// a round-k payload that says the same as A's (fully determined before the fork) is sent
+					// in A's bytes: no equivocation, whatever the two instances' map orders were
+					if e.Round == k && e.Bcast {
+						if d, ok := sentA[mkey(m)]; ok && !bytes.Equal(d, m.Data) && msgKeyData(d) == msgKeyData(m.Data) {
+							m.Data = d
+							changed = true
+						}
+					}
+					if changed {
+						if b, err := m.MarshalBinary(); err == nil {
+							e.Bytes = b
 						}
 					}
 				}
@@ -406,4 +429,17 @@ func publicOutcome(p scen.Proto, v interface{}) string {
 		return fmt.Sprintf("presig id=%x R=%x", []byte(r.ID), rb)
 	}
 	return fmt.Sprintf("%T %s", v, scen.ResultDigest(p, v))
+}
+
+// msgKeyData digests a payload independently of the order in which its maps were encoded.
+func msgKeyData(data []byte) string {
+	out := data
+	if t, err := mut.Decode(data); err == nil {
+		func() {
+			defer func() { _ = recover() }()
+			out = mut.Encode(t)
+		}()
+	}
+	h := sha256.Sum256(out)
+	return fmt.Sprintf("%x", h[:12])
 }
